@@ -136,82 +136,136 @@ func cmpHolds(op token.Token, x, y int) (bool, bool) {
 	return false, false
 }
 
-// evalOrd follows f (comparison-only on its three numeric parameters) under one weak ordering.
+// evalOrd follows f (comparison-only on its three numeric parameters) under one weak ordering: a tiny
+// abstract interpreter whose only values are parameters (by rank) and booleans.
 func evalOrd(f *ssa.Function, ranks [3]int) (param int, label int64, why string) {
 	pidx := func(v ssa.Value) int {
 		for i, p := range f.Params {
-			if p == v {
+			if ssa.Value(p) == v {
 				return i
 			}
 		}
 		return -1
 	}
+	bools := map[ssa.Value]bool{}
+	var boolOf func(v ssa.Value) (bool, bool)
+	boolOf = func(v ssa.Value) (bool, bool) {
+		if b, ok := bools[v]; ok {
+			return b, true
+		}
+		if k, ok := v.(*ssa.Const); ok && k.Value != nil && k.Value.Kind() == constant.Bool {
+			return constant.BoolVal(k.Value), true
+		}
+		return false, false
+	}
 	blk := f.Blocks[0]
-	for steps := 0; steps < 100; steps++ {
+	var prev *ssa.BasicBlock
+	for steps := 0; steps < 200; steps++ {
+		for _, in := range blk.Instrs {
+			switch x := in.(type) {
+			case *ssa.Phi:
+				for i, p := range blk.Preds {
+					if p == prev {
+						if b, ok := boolOf(x.Edges[i]); ok {
+							bools[x] = b
+						}
+					}
+				}
+			case *ssa.BinOp:
+				xi, yi := pidx(x.X), pidx(x.Y)
+				if xi >= 0 && yi >= 0 {
+					if res, ok := cmpHolds(x.Op, ranks[xi], ranks[yi]); ok {
+						bools[x] = res
+					}
+				} else if xb, ok1 := boolOf(x.X); ok1 {
+					if yb, ok2 := boolOf(x.Y); ok2 {
+						switch x.Op {
+						case token.EQL:
+							bools[x] = xb == yb
+						case token.NEQ:
+							bools[x] = xb != yb
+						}
+					}
+				}
+			case *ssa.UnOp:
+				if x.Op == token.NOT {
+					if b, ok := boolOf(x.X); ok {
+						bools[x] = !b
+					}
+				}
+			}
+		}
 		last := blk.Instrs[len(blk.Instrs)-1]
 		switch t := last.(type) {
 		case *ssa.If:
-			bo, ok := t.Cond.(*ssa.BinOp)
+			res, ok := boolOf(t.Cond)
 			if !ok {
-				return -1, 0, "branch condition is not a comparison"
+				return -1, 0, "a branch depends on something other than comparisons of the three scores (arithmetic on a score?)"
 			}
-			x, y := pidx(bo.X), pidx(bo.Y)
-			if x < 0 || y < 0 {
-				return -1, 0, "branch compares something other than two parameters (arithmetic on a parameter?)"
-			}
-			res, ok := cmpHolds(bo.Op, ranks[x], ranks[y])
-			if !ok {
-				return -1, 0, "unsupported comparison operator " + bo.Op.String()
-			}
+			prev = blk
 			if res {
 				blk = blk.Succs[0]
 			} else {
 				blk = blk.Succs[1]
 			}
 		case *ssa.Jump:
+			prev = blk
 			blk = blk.Succs[0]
 		case *ssa.Return:
 			if len(t.Results) != 1 {
 				return -1, 0, "unexpected number of results"
 			}
-			ld, ok := t.Results[0].(*ssa.UnOp)
-			if !ok {
-				return -1, 0, "returned value is not a local composite"
-			}
-			al, ok := ld.X.(*ssa.Alloc)
-			if !ok {
-				return -1, 0, "returned value is not a local composite"
-			}
-			param, label = -1, 0
-			gotLabel := false
-			for _, ref := range *al.Referrers() {
-				fa, ok := ref.(*ssa.FieldAddr)
-				if !ok {
-					continue
-				}
-				for _, r2 := range *fa.Referrers() {
-					st, ok := r2.(*ssa.Store)
-					if !ok || st.Addr != fa {
-						continue
-					}
-					if p := pidx(st.Val); p >= 0 {
-						param = p
-					} else if n, ok := cInt(constVal(st.Val)); ok {
-						label, gotLabel = n, true
-					} else {
-						return -1, 0, "field stored from a computed value"
-					}
-				}
-			}
-			if param < 0 || !gotLabel {
-				return -1, 0, "could not read (parameter, constant) from the returned composite"
-			}
-			return param, label, ""
+			return readBlockResult(t.Results[0], prev, pidx)
 		default:
 			return -1, 0, fmt.Sprintf("unexpected terminator %T", last)
 		}
 	}
 	return -1, 0, "loop in a comparison-only function"
+}
+
+// readBlockResult reads (score parameter, step constant) from the returned block value: a load of a local
+// composite, possibly through a phi selected by the predecessor.
+func readBlockResult(v ssa.Value, prev *ssa.BasicBlock, pidx func(ssa.Value) int) (int, int64, string) {
+	if phi, ok := v.(*ssa.Phi); ok {
+		for i, p := range phi.Block().Preds {
+			if p == prev {
+				return readBlockResult(phi.Edges[i], nil, pidx)
+			}
+		}
+		return -1, 0, "returned value is a merge that cannot be resolved"
+	}
+	ld, ok := v.(*ssa.UnOp)
+	if !ok {
+		return -1, 0, "returned value is not a local composite"
+	}
+	al, ok := ld.X.(*ssa.Alloc)
+	if !ok {
+		return -1, 0, "returned value is not a local composite"
+	}
+	param, label, gotLabel := -1, int64(0), false
+	for _, ref := range *al.Referrers() {
+		fa, ok := ref.(*ssa.FieldAddr)
+		if !ok {
+			continue
+		}
+		for _, r2 := range *fa.Referrers() {
+			st, ok := r2.(*ssa.Store)
+			if !ok || st.Addr != ssa.Value(fa) {
+				continue
+			}
+			if p := pidx(st.Val); p >= 0 {
+				param = p
+			} else if n, ok := cInt(constVal(st.Val)); ok {
+				label, gotLabel = n, true
+			} else {
+				return -1, 0, "field stored from a computed value"
+			}
+		}
+	}
+	if param < 0 || !gotLabel {
+		return -1, 0, "could not read (score, step) from the returned composite"
+	}
+	return param, label, ""
 }
 
 func ordName(r [3]int) string {
